@@ -109,7 +109,8 @@ def windows_reg_key(comp_expr):
     """
     if _path_is(comp_expr.lhs, ("key",)) \
             or _path_is(comp_expr.lhs, ("values", _ANY_IDX, "name")):
-        comp_expr.rhs.value = comp_expr.rhs.value.lower()
+        if isinstance(comp_expr.rhs.value, str):
+            comp_expr.rhs.value = comp_expr.rhs.value.lower()
 
 
 def ipv4_addr(comp_expr):
@@ -127,7 +128,8 @@ def ipv4_addr(comp_expr):
     Args:
         comp_expr: A _ComparisonExpression object whose type is ipv4-addr.
     """
-    if _path_is(comp_expr.lhs, ("value",)):
+    if _path_is(comp_expr.lhs, ("value",)) \
+            and isinstance(comp_expr.rhs.value, str):
         value = comp_expr.rhs.value
         slash_idx = value.find("/")
         is_cidr = slash_idx >= 0
@@ -188,7 +190,8 @@ def ipv6_addr(comp_expr):
     Args:
         comp_expr: A _ComparisonExpression object whose type is ipv6-addr.
     """
-    if _path_is(comp_expr.lhs, ("value",)):
+    if _path_is(comp_expr.lhs, ("value",)) \
+            and isinstance(comp_expr.rhs.value, str):
         value = comp_expr.rhs.value
         slash_idx = value.find("/")
         is_cidr = slash_idx >= 0
